@@ -179,12 +179,13 @@ func caseC04(c *Ctx) {
 	case "pairs":
 		// exhaustive: case = ordered pair (a, b); sets {a},{b},{a,b} and complements
 		a, b := (c.Case/n)%n, c.Case%n
-		var sa, sb, sab, na, nb bset
+		var sa, sb, sab, na, nb, nab bset
 		sa[a], sb[b], sab[a], sab[b] = true, true, true, true
 		for i := 0; i < n; i++ {
-			na[i], nb[i] = !sa[i], !sb[i]
+			na[i], nb[i], nab[i] = !sa[i], !sb[i], !sab[i]
 		}
-		for _, pr := range [][2]*bset{{&sa, &sb}, {&sab, &sb}, {&sa, &sab}, {&na, &sb}, {&sa, &nb}, {&na, &nb}, {&sab, &na}} {
+		for _, pr := range [][2]*bset{{&sa, &sb}, {&sab, &sb}, {&sa, &sab}, {&na, &sb}, {&sa, &nb}, {&na, &nb}, {&sab, &na},
+			{&sab, &sab}, {&nab, &sab}, {&sab, &nab}, {&nab, &nab}} {
 			if msg := checkMaskPair(pr[0], pr[1]); msg != "" {
 				fail("mask.pair", fmt.Sprintf("ids %d,%d: %s", a, b, msg), map[string]int{"a": a, "b": b})
 				return
@@ -194,7 +195,7 @@ func caseC04(c *Ctx) {
 		if a/64 != b/64 || (n <= 64 && a != b) {
 			c.NonTrivial(uint64(a)<<16 | uint64(b) | uint64(n)<<32)
 		}
-		c.Sample(map[string]any{"mode": "pairs", "a": a, "b": b, "sets": "{a},{b},{a,b} and complements, 7 operand pairs"})
+		c.Sample(map[string]any{"mode": "pairs", "a": a, "b": b, "sets": "{a},{b},{a,b} and complements, 11 operand pairs"})
 	case "random":
 		dens := []float64{0.02, 0.1, 0.5, 0.9}
 		var a, b bset
